@@ -32,7 +32,7 @@ CLAIMED = {
             "Theorems (coq/props/C10.v, 13): C10_iff, C10_sound, C10_complete, C10_raise_agrees, C10_raise_iff, C10_strict, C10_fuel_monotone, C10_gate, C10_accepted_typed, C10_absent_field_agrees, "
             "C10_writer_accepts_partial, C10_accepted_roundtrip, C10_writer_accepts_refuted (what remains false without the side condition: foreign exception in a later branch, strict writer, float overflow). "
             "Tie: 12 mutation kinds x raise_errors x strict x disable_tuple_notation, validate_many, accepted => written and read back, rejected => validating writer raises with the stream unchanged, strict writers.",
-            "C10_gate is model-level; that no byte reaches the stream is decided by the correspondence. floats_ok (range of SpecFloat.binary_round outputs) is an evaluated hypothesis.", "§3 C10"),
+            "C10_gate is model-level; that no byte reaches the stream is decided by the correspondence. floats_ok of the elaborated value is derived (proofs/ElabFloats.v over FloatProofs.v: Reals axioms + classic, allow-listed) from pyfloats_ok of the input, which is an evaluated hypothesis about the abstraction.", "§3 C10"),
     "C11": ("Rocq proof about a faithful model of parse_schema: full names per the spec's namespace rules, references denote table entries with that name, every rejection kind of the statement (exact error at the node and 'never accepted at any depth'), acceptance of every valid_raw schema; model vs fastavro.parse_schema on generated valid and singly-mutated schemas",
             "Theorems (coq/props/C11.v, ~39): C11_fullnames, C11_refs/C11_refs_denote, C11_rejects_* (undefined reference, duplicate name incl. top-level unions, missing name, malformed/duplicate symbol, "
             "enum default, default of wrong JSON type for primitives / dict forms / unions / references, decimal precision/scale), C11_accepts (valid_raw => accepted, no size bound). "
